@@ -34,6 +34,14 @@ type scenario struct {
 	CtxMode string // "ctx" | "nil" | "plain" (non-context verb)
 	Call    []vlib.ExpAttr
 	Verb    int
+	// Common: one slog.Attrs value (with spare capacity) given to EVERY logger of the chain through
+	// SetAttrs1 before its own attributes are set
+	Common []vlib.ExpAttr
+	// second record: after the first one, logger Mutate (index, -1 none) gets MoreAttrs, then the
+	// last logger logs again with Call2
+	Mutate    int
+	MoreAttrs []vlib.ExpAttr
+	Call2     []vlib.ExpAttr
 }
 
 var counter int
@@ -95,6 +103,22 @@ func genScenario(t *rapid.T) scenario {
 		sc.Call = genList(t, 31, 64, 0)
 	}
 	sc.Verb = rapid.IntRange(0, 2).Draw(t, "verb")
+	if rapid.IntRange(0, 3).Draw(t, "commonAttrs1") == 0 {
+		sc.Common = []vlib.ExpAttr{{Key: "cm", Val: vlib.Value{Kind: "string", V: "common"}}}
+	}
+	sc.Mutate = -1
+	if rapid.Bool().Draw(t, "secondRecord") {
+		sc.Mutate = rapid.IntRange(-1, depth-1).Draw(t, "mutateLogger")
+		if sc.Mutate >= 0 {
+			sc.MoreAttrs = genList(t, 1, 3, 0)
+		}
+		if rapid.Bool().Draw(t, "call2") {
+			sc.Call2 = genList(t, 0, 6, 0)
+		}
+		sc.Mutate += 0
+	} else {
+		sc.Mutate = -2 // no second record at all
+	}
 	return sc
 }
 
@@ -141,6 +165,11 @@ func run(t *rapid.T, test string, sc scenario) {
 	// build the chain
 	var lg slog.Logger
 	name := ""
+	var chainLoggers []slog.Logger
+	var common slog.Attrs
+	if len(sc.Common) > 0 {
+		common = append(make(slog.Attrs, 0, 8), vlib.AttrsOf(sc.Common)...) // spare capacity
+	}
 	for i, own := range sc.Chain {
 		args := vlib.BuildArgs(t, own)
 		how := sc.HowSet[i]
@@ -155,6 +184,9 @@ func run(t *rapid.T, test string, sc scenario) {
 		} else {
 			lg = lg.New(opts...)
 		}
+		if common != nil && how != 2 {
+			lg.SetAttrs1(common) // the very same slice value for every logger
+		}
 		if len(own) > 0 {
 			switch how {
 			case 0:
@@ -166,6 +198,16 @@ func run(t *rapid.T, test string, sc scenario) {
 			}
 		}
 		name = nm
+		chainLoggers = append(chainLoggers, lg)
+	}
+	// the model's own attributes per logger: common first (unless the logger got its attributes as a creation option)
+	chain := make([][]vlib.ExpAttr, len(sc.Chain))
+	for i, own := range sc.Chain {
+		if common != nil && sc.HowSet[i] != 2 {
+			chain[i] = append(append([]vlib.ExpAttr{}, sc.Common...), own...)
+		} else {
+			chain[i] = own
+		}
 	}
 	switch sc.Format {
 	case "json":
@@ -201,135 +243,149 @@ func run(t *rapid.T, test string, sc scenario) {
 		ctxAttrs = nil // nil context or non-context verb: nothing can be found
 	}
 
-	// reference merge: context, ancestors outermost first (iff the flag), own, call
-	var sources []vlib.ExpAttr
-	sources = append(sources, ctxAttrs...)
-	contributing := 0
-	if len(ctxAttrs) > 0 {
-		contributing++
-	}
-	parentContrib := false
-	for i, own := range sc.Chain {
-		last := i == len(sc.Chain)-1
-		if last || sc.Inherit {
-			sources = append(sources, own...)
-			if len(own) > 0 {
-				contributing++
-				if !last {
-					parentContrib = true
+	emitAndCheck := func(round int, chain [][]vlib.ExpAttr, call []vlib.ExpAttr) {
+		log.Reset()
+		// reference merge: context, ancestors outermost first (iff the flag), own, call
+		var sources []vlib.ExpAttr
+		sources = append(sources, ctxAttrs...)
+		contributing := 0
+		if len(ctxAttrs) > 0 {
+			contributing++
+		}
+		parentContrib := false
+		for i, own := range chain {
+			last := i == len(chain)-1
+			if last || sc.Inherit {
+				sources = append(sources, own...)
+				if len(own) > 0 {
+					contributing++
+					if !last {
+						parentContrib = true
+					}
 				}
 			}
 		}
-	}
-	sources = append(sources, sc.Call...)
-	if len(sc.Call) > 0 {
-		contributing++
-	}
+		sources = append(sources, call...)
+		if len(call) > 0 {
+			contributing++
+		}
 
-	callArgs := vlib.BuildArgs(t, sc.Call)
-	const msg = "assembly probe"
-	func() {
-		defer func() {
-			if p := recover(); p != nil {
-				t.Fatalf("C07 call panicked: %v", p)
+		callArgs := vlib.BuildArgs(t, call)
+		const msg = "assembly probe"
+		func() {
+			defer func() {
+				if p := recover(); p != nil {
+					t.Fatalf("C07 call panicked: %v", p)
+				}
+			}()
+			switch {
+			case sc.CtxMode == "plain":
+				switch sc.Verb {
+				case 0:
+					lg.Info(msg, callArgs...)
+				case 1:
+					lg.Warn(msg, callArgs...)
+				default:
+					lg.Print(msg, callArgs...)
+				}
+			default:
+				c := ctx
+				if sc.CtxMode == "nil" {
+					c = nil
+				}
+				switch sc.Verb {
+				case 0:
+					lg.InfoContext(c, msg, callArgs...) //nolint:staticcheck // nil context on purpose
+				case 1:
+					lg.LogAttrs(c, slog.WarnLevel, msg, callArgs...) //nolint:staticcheck
+				default:
+					lg.PrintContext(c, msg, callArgs...) //nolint:staticcheck
+				}
 			}
 		}()
-		switch {
-		case sc.CtxMode == "plain":
-			switch sc.Verb {
-			case 0:
-				lg.Info(msg, callArgs...)
-			case 1:
-				lg.Warn(msg, callArgs...)
-			default:
-				lg.Print(msg, callArgs...)
+		writes := log.Writes()
+		if len(writes) != 1 {
+			t.Fatalf("C07 harness expectation: exactly one record, got %d", len(writes))
+		}
+		payload := writes[0].Payload
+		lvlName := []string{"info", "warning", "always"}[sc.Verb]
+		exp := vlib.ExpRecord{LoggerName: name, LevelName: lvlName, Msg: msg, Attrs: sources, TimeLayout: "15:04:05.000000Z07:00"}
+		desc := fmt.Sprintf("record #%d format=%s inherit=%v ctxmode=%s ctxkeys=%+v common=[%s] chain=[%s] call=[%s]", round, sc.Format, sc.Inherit, sc.CtxMode, sc.CtxKeys, vlib.Describe(sc.Common), describeChain(chain), vlib.Describe(call))
+		sig := "C07/assembly"
+		if !hasOwn(sc) && parentContrib {
+			sig = "C07/inherit-without-own"
+		}
+		switch sc.Format {
+		case "json":
+			if p := vlib.CheckJSONRecord(payload, exp); p != nil {
+				vlib.Discrep(t, sig, "C07 %s: %s\nexpected merge: [%s]", desc, p.Msg, vlib.Describe(vlib.Normalize(sources)))
+			} else if o, err := vlib.DecodeJSONRecord(payload); err == nil {
+				if err := ascending(o, map[string]bool{"time": true, "logger": true, "level": true, "msg": true, "caller": true}, ""); err != nil {
+					vlib.Discrep(t, "C07/order", "C07 %s: %v; payload %s", desc, err, vlib.Short(string(payload)))
+				}
+			}
+		case "logfmt":
+			if p := vlib.CheckLogfmtRecord(payload, exp, false); p != nil {
+				vlib.Discrep(t, sig, "C07 %s: %s\nexpected merge: [%s]", desc, p.Msg, vlib.Describe(vlib.Normalize(sources)))
 			}
 		default:
-			c := ctx
-			if sc.CtxMode == "nil" {
-				c = nil
+			r := vlib.SimulateSGR(payload)
+			line := strings.SplitN(r.Text, "\n", 2)[0]
+			i := strings.Index(line, msg)
+			if i < 0 {
+				t.Fatalf("C07 %s: message not found in colored record %q", desc, r.Text)
 			}
-			switch sc.Verb {
-			case 0:
-				lg.InfoContext(c, msg, callArgs...) //nolint:staticcheck // nil context on purpose
-			case 1:
-				lg.LogAttrs(c, slog.WarnLevel, msg, callArgs...) //nolint:staticcheck
-			default:
-				lg.PrintContext(c, msg, callArgs...) //nolint:staticcheck
-			}
-		}
-	}()
-	writes := log.Writes()
-	if len(writes) != 1 {
-		t.Fatalf("C07 harness expectation: exactly one record, got %d", len(writes))
-	}
-	payload := writes[0].Payload
-	lvlName := []string{"info", "warning", "always"}[sc.Verb]
-	exp := vlib.ExpRecord{LoggerName: name, LevelName: lvlName, Msg: msg, Attrs: sources, TimeLayout: "15:04:05.000000Z07:00"}
-	desc := fmt.Sprintf("format=%s inherit=%v ctxmode=%s ctxkeys=%+v chain=[%s] call=[%s]", sc.Format, sc.Inherit, sc.CtxMode, sc.CtxKeys, describeChain(sc.Chain), vlib.Describe(sc.Call))
-	sig := "C07/assembly"
-	if !hasOwn(sc) && parentContrib {
-		sig = "C07/inherit-without-own"
-	}
-	switch sc.Format {
-	case "json":
-		if p := vlib.CheckJSONRecord(payload, exp); p != nil {
-			vlib.Discrep(t, sig, "C07 %s: %s\nexpected merge: [%s]", desc, p.Msg, vlib.Describe(vlib.Normalize(sources)))
-		} else if o, err := vlib.DecodeJSONRecord(payload); err == nil {
-			if err := ascending(o, map[string]bool{"time": true, "logger": true, "level": true, "msg": true, "caller": true}, ""); err != nil {
-				vlib.Discrep(t, "C07/order", "C07 %s: %v; payload %s", desc, err, vlib.Short(string(payload)))
+			rest := strings.TrimLeft(line[i+len(msg):], " ")
+			pairs, err := vlib.ParseLogfmtRecord([]byte(rest + "\n"))
+			if err != nil {
+				vlib.Discrep(t, sig, "C07 %s: attribute region %q is not key=value pairs: %v\nexpected merge: [%s]", desc, rest, err, vlib.Describe(vlib.Normalize(sources)))
+			} else if err := vlib.MatchLogfmtAttrs(pairs, vlib.Normalize(sources), false); err != nil {
+				vlib.Discrep(t, sig, "C07 %s: %v; attribute region %q\nexpected merge: [%s]", desc, err, rest, vlib.Describe(vlib.Normalize(sources)))
 			}
 		}
-	case "logfmt":
-		if p := vlib.CheckLogfmtRecord(payload, exp, false); p != nil {
-			vlib.Discrep(t, sig, "C07 %s: %s\nexpected merge: [%s]", desc, p.Msg, vlib.Describe(vlib.Normalize(sources)))
-		}
-	default:
-		r := vlib.SimulateSGR(payload)
-		line := strings.SplitN(r.Text, "\n", 2)[0]
-		i := strings.Index(line, msg)
-		if i < 0 {
-			t.Fatalf("C07 %s: message not found in colored record %q", desc, r.Text)
-		}
-		rest := strings.TrimLeft(line[i+len(msg):], " ")
-		pairs, err := vlib.ParseLogfmtRecord([]byte(rest + "\n"))
-		if err != nil {
-			vlib.Discrep(t, sig, "C07 %s: attribute region %q is not key=value pairs: %v\nexpected merge: [%s]", desc, rest, err, vlib.Describe(vlib.Normalize(sources)))
-		} else if err := vlib.MatchLogfmtAttrs(pairs, vlib.Normalize(sources), false); err != nil {
-			vlib.Discrep(t, sig, "C07 %s: %v; attribute region %q\nexpected merge: [%s]", desc, err, rest, vlib.Describe(vlib.Normalize(sources)))
-		}
-	}
 
-	// classification
-	var labels []string
-	labels = append(labels, "format="+sc.Format, fmt.Sprintf("inherit=%v", sc.Inherit), fmt.Sprintf("depth=%d", len(sc.Chain)), "ctx="+sc.CtxMode)
-	nt := map[string]bool{}
-	if contributing >= 2 && hasDup(sources) {
-		nt["same-key-from-2-sources"] = true
-	}
-	if len(sources) >= 13 && hasDup(sources) {
-		nt["dup-among>=13"] = true
-	}
-	if parentContrib && !hasOwn(sc) {
-		nt["parent-contributes-child-has-none"] = true
-	}
-	if len(ctxAttrs) > 0 {
-		nt["ctx-values"] = true
-	}
-	for l := range nt {
-		labels = append(labels, l)
-	}
-	key := ""
-	if nt["same-key-from-2-sources"] || nt["dup-among>=13"] || nt["parent-contributes-child-has-none"] {
-		key = fmt.Sprintf("%s|%v|%s|%s|%d|%d", sc.Format, sc.Inherit, sc.CtxMode, vlib.JoinSorted(nt), len(sc.Chain), len(sources))
-	}
-	vlib.Case(test, key, labels...)
-	if key != "" && vlib.WantSample(test+"/"+sc.Format) {
-		vlib.Sample(test+"/"+sc.Format, map[string]any{"scenario": desc, "expected": vlib.Describe(vlib.Normalize(sources)), "payload": vlib.Short(string(payload))})
+		// classification
+		var labels []string
+		labels = append(labels, "format="+sc.Format, fmt.Sprintf("inherit=%v", sc.Inherit), fmt.Sprintf("depth=%d", len(sc.Chain)), "ctx="+sc.CtxMode)
+		nt := map[string]bool{}
+		if contributing >= 2 && hasDup(sources) {
+			nt["same-key-from-2-sources"] = true
+		}
+		if len(sources) >= 13 && hasDup(sources) {
+			nt["dup-among>=13"] = true
+		}
+		if parentContrib && !hasOwn(sc) {
+			nt["parent-contributes-child-has-none"] = true
+		}
+		if len(ctxAttrs) > 0 {
+			nt["ctx-values"] = true
+		}
+		for l := range nt {
+			labels = append(labels, l)
+		}
+		key := ""
+		if nt["same-key-from-2-sources"] || nt["dup-among>=13"] || nt["parent-contributes-child-has-none"] {
+			key = fmt.Sprintf("%s|%v|%s|%s|%d|%d", sc.Format, sc.Inherit, sc.CtxMode, vlib.JoinSorted(nt), len(sc.Chain), len(sources))
+		}
+		vlib.Case(test, key, labels...)
+		if key != "" && vlib.WantSample(test+"/"+sc.Format) {
+			vlib.Sample(test+"/"+sc.Format, map[string]any{"scenario": desc, "expected": vlib.Describe(vlib.Normalize(sources)), "payload": vlib.Short(string(payload))})
+		}
+	} // emitAndCheck
+
+	emitAndCheck(1, chain, sc.Call)
+	if sc.Mutate >= -1 {
+		// a second record of the same logger: earlier records and attribute changes of any ancestor must
+		// show exactly as the merge rule says (no cached ancestors, no values written into logger attributes)
+		if sc.Mutate >= 0 && len(sc.MoreAttrs) > 0 {
+			chainLoggers[sc.Mutate].Set(vlib.BuildArgs(t, sc.MoreAttrs)...)
+			chain[sc.Mutate] = append(append([]vlib.ExpAttr{}, chain[sc.Mutate]...), sc.MoreAttrs...)
+		}
+		emitAndCheck(2, chain, sc.Call2)
 	}
 }
 
-func hasOwn(sc scenario) bool { return len(sc.Chain[len(sc.Chain)-1]) > 0 }
+func hasOwn(sc scenario) bool { return len(sc.Chain[len(sc.Chain)-1]) > 0 || len(sc.Common) > 0 }
 
 func describeChain(c [][]vlib.ExpAttr) string {
 	var parts []string
